@@ -60,7 +60,13 @@ class Replayer(object):
         self.routes = {}
         # every application carries one application-level middleware, shared Route objects of kind 'needs' / 'bindv' a
         # route-level one of another type: binding (successful or failing) must leave app.middlewares alone
-        self.MwApp = type('MwApp', (Middleware,), {})
+        def tag_owner(self, next):
+            # every application's OWN instance of this (unique) type runs for the requests it serves - also for routes that
+            # came in by embedding another application which has an instance of its own
+            resp = next()
+            resp.headers['X-Mw-Owner'] = self.owner
+            return resp
+        self.MwApp = type('MwApp', (Middleware,), {'request': tag_owner, 'owner': '?'})
         self.MwRoute = type('MwRoute', (Middleware,), {})
         self.app_mws = {}
         self.chains = {}
@@ -103,6 +109,7 @@ class Replayer(object):
                         f += 1
                 self.fresh += len(op['items'])
                 mws = [self.MwApp()]
+                mws[0].owner = str(op['a'])
                 app = Application(entries, resources=res, middlewares=mws)
                 self.apps[op['a']] = app
                 self.app_mws[op['a']] = list(mws)
@@ -134,6 +141,7 @@ class Replayer(object):
         except Exception as e:  # noqa
             return 'escaped:' + type(e).__name__
         m = re.search(r'mk-(\w+)-km', resp.get_data(as_text=True))
+        self.last_owner = resp.headers.get('X-Mw-Owner')
         return m.group(1) if m else 'status-%d' % resp.status_code
 
 
@@ -217,6 +225,10 @@ def replay_history(run, rec):
                 for method in ('DELETE', 'POST', 'GET'):
                     got = R.probe(app, p, method)
                     want = first_match(v['table'], p, method)
+                    if got == want and not got.startswith('status-') and R.last_owner != str(a):
+                        run.violation('foreign-middleware-instance', 'step %d: application %s answered %s %r through the middleware '
+                                      'instance of application %r' % (n, a, method, p, R.last_owner), dict(ctx, app=a, path=p))
+                        return False
                     if got != want:
                         run.violation('probe-differs' if method == 'GET' else 'probe-differs:%s' % method,
                                       'step %d: application %s answers %s %r with %r, spec says %r' % (n, a, method, p, got, want),
